@@ -7,6 +7,7 @@ definitions; a generated file then PROVES them equal to the hand-written model f
   modalities.{Modality,Clinical,Pathological}.compute_confusion_matrix
                                           -> gen_confusion                  = Observation.confusion_matrix
   matrix.compute_encoding's element_map   -> gen_element                    = Observation.element
+  matrix.generate_observation             -> gen_generate_observation       = Observation.generate_observation
 
 The translator is fail-closed: it accepts exactly the statement and expression forms listed below and raises
 `Untranslatable` for anything else (a rewrite of these functions, harmless or not, therefore breaks the obligation; the
@@ -294,13 +295,111 @@ def translate_element_map() -> str:
             "Proof. intros b i. unfold gen_element, element. destruct (Nat.eqb b 2); destruct i; reflexivity. Qed.\n")
 
 
+# ------------------------------------------------------------------------------------------------------------------
+# matrix.generate_observation: the two nested loops as folds
+# ------------------------------------------------------------------------------------------------------------------
+def translate_generate_observation() -> str:
+    """accepted shape (names free):
+         SHAPE = (base**num_lnls, 1); OBS = np.ones(shape=SHAPE)        (or np.ones(shape=(base**num_lnls, 1)))
+         for MOD in modalities:
+             M = np.ones(shape=(1, 1))
+             for _ in range(num_lnls):
+                 M = np.kron(M, MOD.confusion_matrix)
+             OBS = row_wise_kron(OBS, M)
+         return OBS"""
+    fn = _func(ast.parse(_src("lymph/matrix.py")), "generate_observation")
+    params = [a.arg for a in fn.args.args]
+    if params != ["modalities", "num_lnls", "base"]:
+        raise Untranslatable(f"signature {params}")
+    st = _strip_doc(fn.body)
+
+    def ones_shape(e, env):
+        """np.ones(shape=X) -> the (rows, cols) tuple expression X (resolved through env)"""
+        if not (isinstance(e, ast.Call) and isinstance(e.func, ast.Attribute) and e.func.attr == "ones"
+                and isinstance(e.func.value, ast.Name) and e.func.value.id == "np" and not e.args
+                and len(e.keywords) == 1 and e.keywords[0].arg == "shape"):
+            raise Untranslatable("expected np.ones(shape=...)")
+        x = e.keywords[0].value
+        if isinstance(x, ast.Name) and x.id in env:
+            x = env[x.id]
+        if not (isinstance(x, ast.Tuple) and len(x.elts) == 2):
+            raise Untranslatable("shape is not a pair")
+        return x.elts
+
+    def is_one(e):
+        return isinstance(e, ast.Constant) and e.value == 1 and not isinstance(e.value, bool)
+
+    def is_pow_states(e):
+        return (isinstance(e, ast.BinOp) and isinstance(e.op, ast.Pow) and isinstance(e.left, ast.Name) and e.left.id == "base"
+                and isinstance(e.right, ast.Name) and e.right.id == "num_lnls")
+
+    env = {}
+    k = 0
+    if isinstance(st[k], ast.Assign) and isinstance(st[k].value, ast.Tuple) and isinstance(st[k].targets[0], ast.Name):
+        env[st[k].targets[0].id] = st[k].value
+        k += 1
+    if not (isinstance(st[k], ast.Assign) and isinstance(st[k].targets[0], ast.Name)):
+        raise Untranslatable("initialisation of the observation matrix")
+    obs = st[k].targets[0].id
+    r, c = ones_shape(st[k].value, env)
+    if not (is_pow_states(r) and is_one(c)):
+        raise Untranslatable("initial shape is not (base**num_lnls, 1)")
+    k += 1
+    loop = st[k]
+    if not (isinstance(loop, ast.For) and isinstance(loop.target, ast.Name) and isinstance(loop.iter, ast.Name)
+            and loop.iter.id == "modalities" and not loop.orelse and len(loop.body) == 3):
+        raise Untranslatable("outer loop over the modalities")
+    mod = loop.target.id
+    a, inner, b = loop.body
+    if not (isinstance(a, ast.Assign) and isinstance(a.targets[0], ast.Name)):
+        raise Untranslatable("inner initialisation")
+    m = a.targets[0].id
+    r, c = ones_shape(a.value, env)
+    if not (is_one(r) and is_one(c)):
+        raise Untranslatable("inner initial shape is not (1, 1)")
+    ok = (isinstance(inner, ast.For) and isinstance(inner.iter, ast.Call) and isinstance(inner.iter.func, ast.Name)
+          and inner.iter.func.id == "range" and len(inner.iter.args) == 1 and isinstance(inner.iter.args[0], ast.Name)
+          and inner.iter.args[0].id == "num_lnls" and not inner.orelse and len(inner.body) == 1)
+    if not ok:
+        raise Untranslatable("inner loop is not `for _ in range(num_lnls)` with one statement")
+    u = inner.body[0]
+    ok = (isinstance(u, ast.Assign) and isinstance(u.targets[0], ast.Name) and u.targets[0].id == m and _is_np(u.value, "kron")
+          and len(u.value.args) == 2 and isinstance(u.value.args[0], ast.Name) and u.value.args[0].id == m
+          and isinstance(u.value.args[1], ast.Attribute) and u.value.args[1].attr == "confusion_matrix"
+          and isinstance(u.value.args[1].value, ast.Name) and u.value.args[1].value.id == mod)
+    if not ok:
+        raise Untranslatable(f"inner statement is not `{m} = np.kron({m}, {mod}.confusion_matrix)`")
+    ok = (isinstance(b, ast.Assign) and isinstance(b.targets[0], ast.Name) and b.targets[0].id == obs
+          and isinstance(b.value, ast.Call) and isinstance(b.value.func, ast.Name) and b.value.func.id == "row_wise_kron"
+          and len(b.value.args) == 2 and not b.value.keywords and all(isinstance(x, ast.Name) for x in b.value.args)
+          and [x.id for x in b.value.args] == [obs, m])
+    if not ok:
+        raise Untranslatable(f"outer update is not `{obs} = row_wise_kron({obs}, {m})`")
+    k += 1
+    if not (k == len(st) - 1 and isinstance(st[k], ast.Return) and isinstance(st[k].value, ast.Name) and st[k].value.id == obs):
+        raise Untranslatable("the function must end in `return <observation matrix>`")
+    return ("Definition gen_generate_observation (modalities : list modality) (num_lnls base : nat) : mat :=\n"
+            "  let obs := repeat [1%Qc] (Nat.pow base num_lnls) in\n"
+            "  fold_left (fun (obs : mat) (modality : modality) =>\n"
+            "               let m := [[1%Qc]] in\n"
+            "               let m := Nat.iter num_lnls (fun m => kron_mat m (confusion_matrix base modality)) m in\n"
+            "               row_wise_kron obs m) modalities obs.\n"
+            "Lemma gen_iter_kron_pow : forall (C : mat) n, Nat.iter n (fun m => kron_mat m C) [[1%Qc]] = kron_pow C n.\n"
+            "Proof. intros C n. induction n as [|n IH]; [reflexivity|]. cbn [Nat.iter nat_rect kron_pow]. unfold Nat.iter in IH. rewrite IH. reflexivity. Qed.\n"
+            "Lemma gen_generate_observation_eq : forall mods n b, gen_generate_observation mods n b = generate_observation mods n b.\n"
+            "Proof.\n  intros mods n b. unfold gen_generate_observation, generate_observation. cbv zeta.\n"
+            "  generalize (repeat [1%Qc] (Nat.pow b n)). induction mods as [|m mods IH]; intros acc; [reflexivity|].\n"
+            "  cbn [fold_left]. rewrite gen_iter_kron_pow. apply IH.\nQed.\n")
+
+
 HEADER = ("(* GENERATED on every run by harness/translate.py from the Python source of lymph; do not edit *)\n"
           "From LymphModel Require Import Base States Linalg Graph Transition Observation.\n"
           "Local Open Scope nat_scope.\nOpen Scope Qc_scope.\n\n")
 
 PIECES = {"tensor": (translate_tensor, "gen_comp_transition_tensor_eq", "lymph/utils.py comp_transition_tensor"),
           "confusion": (translate_confusion, "gen_confusion_eq", "lymph/modalities.py compute_confusion_matrix (Modality, Clinical, Pathological)"),
-          "element": (translate_element_map, "gen_element_eq", "lymph/matrix.py compute_encoding element_map")}
+          "element": (translate_element_map, "gen_element_eq", "lymph/matrix.py compute_encoding element_map"),
+          "observation": (translate_generate_observation, "gen_generate_observation_eq", "lymph/matrix.py generate_observation")}
 
 
 def generate(piece: str) -> str:
